@@ -30,6 +30,9 @@ type Case struct {
 	Judge    bool   `json:"judge"`
 	JudgeRT  bool   `json:"judgert"`
 	PrefixOK bool   `json:"prefixok"`
+	// RsText2/After: the program assigns RS = RsText2 in the action of record number After (0: RS is never reassigned).
+	RsText2 hx.BS `json:"rstext2,omitempty"`
+	After   int   `json:"after,omitempty"`
 	// Sched, if present, is one more delivery schedule to try (cases made from a recorded run carry theirs).
 	Sched []int `json:"sched,omitempty"`
 }
@@ -44,6 +47,20 @@ type Seen struct {
 func Program(rstext []byte) string {
 	return "BEGIN { RS = " + hx.AwkString(rstext) + " }\n" +
 		`{ printf "%d:%d:%d:%s%d:%s\n", NR, FNR, length($0), $0, length(RT), RT }` + "\n"
+}
+
+// SwitchProgram is Program with RS reassigned in the action of record number after.
+func SwitchProgram(rstext, rstext2 []byte, after int) string {
+	return "BEGIN { RS = " + hx.AwkString(rstext) + " }\n" +
+		`{ printf "%d:%d:%d:%s%d:%s\n", NR, FNR, length($0), $0, length(RT), RT }` + "\n" +
+		fmt.Sprintf("NR == %d { RS = %s }\n", after, hx.AwkString(rstext2))
+}
+
+// SwitchGetlineProgram is GetlineProgram with the same reassignment.
+func SwitchGetlineProgram(rstext, rstext2 []byte, after int) string {
+	return "BEGIN { RS = " + hx.AwkString(rstext) + "\n" +
+		`  while ((getline line) > 0) { printf "%d:%d:%d:%s%d:%s\n", NR, FNR, length(line), line, length(RT), RT` + "\n" +
+		fmt.Sprintf("    if (NR == %d) RS = %s }\n}\n", after, hx.AwkString(rstext2))
 }
 
 func readInt(b []byte, off int) (int, int, bool) {
@@ -173,6 +190,9 @@ func Replay(raw json.RawMessage) hx.Outcome {
 	}
 	input := c.Input.Bytes()
 	src := Program(c.RsText.Bytes())
+	if c.After > 0 {
+		src = SwitchProgram(c.RsText.Bytes(), c.RsText2.Bytes(), c.After)
+	}
 	prog, perr := parser.ParseProgram([]byte(src), nil)
 	if perr != nil {
 		return hx.Outcome{Skipped: true, Note: "generated program rejected: " + perr.Error()}
@@ -186,6 +206,10 @@ func Replay(raw json.RawMessage) hx.Outcome {
 		res := rn.run(data, sched)
 		sc := schedClass(sched, n)
 		desc := fmt.Sprintf("RS=%q input=%q %s schedule=%v", c.RsText.Bytes(), input, label, sched)
+		if c.After > 0 {
+			desc = fmt.Sprintf("RS=%q, then RS=%q assigned in the action of record %d, input=%q %s schedule=%v",
+				c.RsText.Bytes(), c.RsText2.Bytes(), c.After, input, label, sched)
+		}
 		if res.Panic != nil {
 			o := hx.Fail(fmt.Sprintf("C07/%s/panic/%s", c.Cls, sc), fmt.Sprintf("panic: %v; %s", res.Panic, desc), nil, res.PanicStk, src)
 			return &o
@@ -295,7 +319,11 @@ func Replay(raw json.RawMessage) hx.Outcome {
 		}
 	}
 	// 1b. the same records reach a program that reads them with getline
-	if gsrc := GetlineProgram(c.RsText.Bytes()); n > 0 {
+	gsrc := GetlineProgram(c.RsText.Bytes())
+	if c.After > 0 {
+		gsrc = SwitchGetlineProgram(c.RsText.Bytes(), c.RsText2.Bytes(), c.After)
+	}
+	if n > 0 {
 		gprog, gerr := parser.ParseProgram([]byte(gsrc), nil)
 		if gerr != nil {
 			return hx.Outcome{Skipped: true, Note: "generated program rejected: " + gerr.Error()}
